@@ -559,7 +559,8 @@ LEVEL_TEXT = ("Proved in Lean 4 about the model that the driver runs against the
               "without final line end, a fresh IniFile holds exactly the document's key/value relation; (2) ini_persist: for every such "
               "document and every sequence (any length) of set(\"section/key\", value) calls on existing keys, new keys, new sections and "
               "the section-less group, interleaved with any number of explicit write() calls and ended by the destructor's write, a "
-              "fresh IniFile on the resulting file returns for every section/key the last value set, else the document's value; "
+              "fresh IniFile on the resulting file returns for every section/key the last value set, else the document's value, and "
+              "the resulting file is again a document of the grammar with that meaning (so the statement composes over sessions); "
               "(3) ini_write_in_bounds: for any file bytes or a missing file and any set / operator[]= / write history with any byte "
               "strings, write never reads outside _lines; (4) ini_order: for any object state the written text contains all original "
               "lines in order, non-entry lines byte for byte, entry lines respelled key=value with the same key, new lines only inserted; "
